@@ -150,6 +150,84 @@ def describe(code, adjust, t):
                 adjust=adjust, query=str(ts(t)) if t is not None else None)
 
 
+RE_H = re.compile(r'<<"H", <<(\d), (\d), (\d), (\d), (\d), (\d), (\d), (\d)>>, (TRUE|FALSE), (\d+), <<(-?\d+), (\d+)>>>>')
+
+
+def _pair_job(job):
+    code, exp, sd = job
+    import sys
+    from .common import REPO
+    if REPO not in sys.path:
+        sys.path.insert(0, REPO)
+    from qstrader import settings
+    settings.set_print_events(False)
+    from qstrader.asset.equity import Equity
+    from qstrader.data.daily_bar_csv import CSVDailyBarDataSource
+    from qstrader.data.backtest_data_handler import BacktestDataHandler
+    rng = random.Random(hash((sd, code)) & 0xffffffff)
+    d1, d2 = tempfile.mkdtemp(prefix="qsv-mk1-"), tempfile.mkdtemp(prefix="qsv-mk2-")
+    out, n = [], 0
+    try:
+        write_csv(os.path.join(d1, SYMBOL + ".csv"), rows_of(code[:4]), rng)
+        write_csv(os.path.join(d2, SYMBOL + ".csv"), rows_of(code[4:]), rng)
+        for adjust in (False, True):
+            srcs = [CSVDailyBarDataSource(d, Equity, adjust_prices=adjust, csv_symbols=[SYMBOL]) for d in (d1, d2)]
+            dh = BacktestDataHandler(None, data_sources=srcs)
+            for t, e in sorted(exp[adjust].items()):
+                T = ts(t)
+                got = dict(bid=dh.get_asset_latest_bid_price(T, "EQ:" + SYMBOL), ask=dh.get_asset_latest_ask_price(T, "EQ:" + SYMBOL),
+                           mid=dh.get_asset_latest_mid_price(T, "EQ:" + SYMBOL))
+                n += 1
+                for k, v in got.items():
+                    if not _same(v, e):
+                        out.append((code, adjust, t, "handler(2 sources)." + k, "returned %r, expected %s" % (
+                            float(v), "NaN" if e[1] == 0 else "%d/%d" % e)))
+    finally:
+        shutil.rmtree(d1, ignore_errors=True)
+        shutil.rmtree(d2, ignore_errors=True)
+    return n, out
+
+
+def pair_check(rep, codes, sd, npairs):
+    rng = random.Random(sd + 77)
+    nonempty = [c for c in codes if any(c)]
+    pairs = sorted(set(tuple(rng.choice(nonempty)) + tuple(rng.choice(nonempty)) for _ in range(npairs)))
+    w = tlc.scratch()
+    try:
+        tlc.stage_all(w)
+        with open(os.path.join(w, "MarketCases.tla"), "w") as fh:
+            fh.write("---- MODULE MarketCases ----\nCaseCodes == { %s }\n====\n" % ", ".join("<<%s>>" % ",".join(str(x) for x in p) for p in pairs))
+        with open(os.path.join(w, "h.cfg"), "w") as fh:
+            fh.write("SPECIFICATION HSpec\nCONSTANTS\n  Days <- D\n  PAD_WRAPS = FALSE\n  Codes <- CaseCodes\nINVARIANT InvHandler\nCHECK_DEADLOCK FALSE\n")
+        try:
+            r = tlc.run(w, "MC_Market", "h.cfg", workers=16, timeout=3000)
+        except tlc.TLCError as e:
+            rep.machinery.append("TLC failed on the two-source instance: %s" % str(e)[-1200:])
+            return 0
+        rep.add_mc(r, "MC_Market(two sources)")
+        if not r.ok:
+            rep.machinery.append("the two-source handler specification violates %s (spec error)" % r.violated)
+            return 0
+    finally:
+        shutil.rmtree(w, ignore_errors=True)
+    exp = {}
+    for m in RE_H.finditer(r.out):
+        code = tuple(int(m.group(i)) for i in range(1, 9))
+        exp.setdefault(code, {False: {}, True: {}})[m.group(9) == "TRUE"][int(m.group(10))] = (int(m.group(11)), int(m.group(12)))
+    if set(exp) != set(pairs):
+        rep.machinery.append("TLC printed answers for %d of %d source pairs" % (len(exp), len(pairs)))
+        return 0
+    with multiprocessing.Pool(16) as pool:
+        res = pool.map(_pair_job, [(c, exp[c], sd) for c in pairs], chunksize=4)
+    for n, out in res:
+        rep.cov["evaluations"] += n
+        for code, adjust, tq, what, detail in out:
+            rep.violation("handler|two-sources", "%s %s; first source %s, second source %s" % (what, detail, describe(code[:4], adjust, tq), describe(code[4:], adjust, tq)["rows"]),
+                          dict(code=list(code[:4]), code2=list(code[4:]), adjust=adjust, t=tq, what=what))
+    rep.cov["source_pairs"] = len(pairs)
+    return len(pairs)
+
+
 def run(prop, replay_file=None):
     assert prop == "C06"
     rep = Report(prop)
@@ -206,7 +284,9 @@ def run(prop, replay_file=None):
             rep.machinery.append("sensitivity: TLC did not find the look-ahead with PAD_WRAPS = TRUE")
     finally:
         shutil.rmtree(w, ignore_errors=True)
-    jobs = [(c, expected[c], sd, t == "thorough") for c in codes]
+    # two data sources behind one handler (fallback order)
+    npairs = pair_check(rep, codes, sd, 150 if t == "quick" else 2500)
+    jobs = [(c, expected[c], sd, t == "thorough" or i % 3 == 0) for i, c in enumerate(codes)]   # second pass in shuffled query order
     with multiprocessing.Pool(16) as pool:
         results = pool.map(confront, jobs, chunksize=8)
     nqueries = 0
@@ -217,7 +297,7 @@ def run(prop, replay_file=None):
             key = "%s|%s" % ("before-first-bar" if before else "lookup", what.split("[")[0])
             rep.violation(key, "%s %s for %s" % (what, detail, describe(code, adjust, tq)),
                           dict(code=list(code), adjust=adjust, t=tq, what=what, detail=detail))
-    rep.cov["evaluations"] = nqueries
+    rep.cov["evaluations"] += nqueries
     rep.cov["traces_validated_against_impl"] = len(codes) * 2
     rep.cov["distinct_nontrivial"] = sum(1 for c in codes if sum(1 for x in c if x) >= 2 and any(x > 1 for x in c))
     rep.cov["rule"] = ("bar files enumerated by TLC (code = one digit per candidate day); a file is non-trivial when it has at "
